@@ -162,7 +162,7 @@ func (c01) Gen(tier string, seed int64) []fw.Unit {
 		}
 	}
 	// mask hunting: short contents varied until all 8 masks tend to appear
-	for i := 0; i < 120; i++ {
+	for i := 0; i < 400; i++ {
 		add("mask-variety", randBytes(r, 1+r.Intn(14), pick(r, classes)), int64(i%4), int64(r.Intn(4)))
 	}
 	return us
@@ -238,6 +238,7 @@ func (p c01) one(c *fw.Ctx, req Req, tag string) {
 	c.CoverN("version", res.Version)
 	c.Cover("layout(version,level)", fmt.Sprintf("%d-%c", res.Version, "LMQH"[res.Level]))
 	c.CoverN("mask", res.Mask)
+	c.Cover("format_word(level,mask)", fmt.Sprintf("%c%d", "LMQH"[res.Level], res.Mask))
 	for _, s := range res.Segments {
 		c.CoverN("segment_mode", s.Mode)
 		cls := 0
